@@ -375,8 +375,10 @@ def _import_through_index(rng, i, j, src, dst, build, transfer, HashInfo):
     if dirs and rng.random() < 0.8:
         picked += rng.sample(dirs, min(len(dirs), rng.randrange(1, 3)))
     picked += rng.sample(plain, min(len(plain), rng.randrange(0 if picked else 1, 3)))
+    if not picked and dirs:
+        picked = [rng.choice(dirs)]
     if not picked:
-        picked = [rng.choice(have)]
+        return ["import_through_index", i, j, "nothing complete in the source store"], [], []
     prefix = rng.choice([(), (), ("imp",), ("imp", "sub")])
     with_size = rng.random() < 0.7
     entries, expect, complete = {}, {}, True
